@@ -387,13 +387,6 @@ theorem NumOK_asNum (n : Num) (neg : Bool) (v : Nat) (h : NumOK n neg v) (hv : v
     have : (v : Int) ≠ -9223372036854775808 := by omega
     simp [this]
 
-theorem fmtNatAux_eq (fuel : Nat) : ∀ (n : Nat) (acc : Bytes), Writer.fmtNatAux fuel n acc = Json.fmtNatAux fuel n acc := by
-  induction fuel with
-  | zero => intro n acc; rfl
-  | succ k ih => intro n acc; simp only [Writer.fmtNatAux, Json.fmtNatAux, ih]
-
-theorem fmtNat_eq (n : Nat) : Writer.fmtNat n = Json.fmtNat n := fmtNatAux_eq _ _ _
-
 theorem natOf_cons_foldl (d : UInt8) (ds : Bytes) :
     ds.foldl (fun a b => a * 10 + dval b) (dval d) = natOf (d :: ds) := by
   simp [natOf]
@@ -485,7 +478,7 @@ theorem value_int (i : Int) (hi : -9223372036854775800 < i ∧ i < 9223372036854
 
 /-- every int64: below the limit the int64 itself (`value_int`), at the limit `nvInt` (a `json.Number` with the same
 digits from 9223372036854775800 on and for -9223372036854775808; `edge_run_pos`, `edge_run_neg`) -/
-theorem value_int_all (i : Int) (hi : -9223372036854775808 ≤ i ∧ i ≤ 9223372036854775807) (st : St) (f : Fast) (p : Pos)
+theorem value_int_all (i : Int) (hi : -9223372036854775808 ≤ i ∧ i ≤ 18446744073709551615) (st : St) (f : Fast) (p : Pos)
     (rest : Bytes) (hm : st.mode = .value) (hin : Inner st) (hf : FOK f) :
     ∃ st' f' p', runBytes refTables {} st f p (fmtInt i ++ rest) = runBytes refTables {} st' f' p' rest ∧
       DoneV st' f' (st.pushed (nvInt i)) := by
@@ -503,13 +496,12 @@ theorem value_int_all (i : Int) (hi : -9223372036854775808 ≤ i ∧ i ≤ 92233
       rw [n3]
       exact pushed_core st' st x hin' a3 b3 c3 d3
     by_cases hpos : 0 ≤ i
-    · obtain ⟨k, hk, hk1, hk2⟩ := edge_text i.natAbs (by omega)
-      have htxt : fmtInt i = P18 ++ [UInt8.ofNat (48 + k)] := by
+    · have htxt : fmtInt i = fmtNat i.natAbs := by
         have : ¬ i < 0 := by omega
-        simp [fmtInt, this, hk2]
-      obtain ⟨st', f', p', hrun, m3, n3, a3, b3, c3, d3, e3⟩ := edge_run_pos k hk st f p rest hm hf.1
+        simp [fmtInt, this]
+      obtain ⟨st', f', p', hrun, m3, n3, a3, b3, c3, d3, e3⟩ := edge_run_posN i.natAbs (by omega) st f p rest hm hf.1
       refine ⟨st', f', p', by rw [htxt]; exact hrun, ?_⟩
-      have e : nvInt i = .big (P18 ++ [UInt8.ofNat (48 + k)]) := by
+      have e : nvInt i = .big (fmtNat i.natAbs) := by
         unfold nvInt; rw [if_neg (by omega), htxt]
       rw [e]
       exact hedge st' f' _ m3 n3 a3 b3 c3 d3 e3
@@ -627,7 +619,7 @@ end
 mutual
   /-- the trees of the theorem: `null`, booleans, integers, strings, arrays, objects; no string (in value position)
   is one of the reserved words, no string or member name is written bare with a leading sign (the two known
-  findings); the integers are ALL int64 (from 9223372036854775800 on the parser's integer fast loop answers
+  findings); the integers are ALL int64 and uint64 (from 9223372036854775800 on the parser's integer fast loop answers
   json.Number — known finding C03sen-int19 — with the same digits: `nvInt`); a float is given by its text, any literal of
   the RFC 8259 number grammar (what strconv writes with format 'g' is one) whose integer part is below the same limit
   (`NumAdm`); json.Number leaves are not covered -/
@@ -635,7 +627,7 @@ mutual
     | .null => True
     | .bool _ => True
     | .str s => ¬ C10.reservedWord s ∧ ¬ C10.leadingSign s o.html
-    | .int i => -9223372036854775808 ≤ i ∧ i ≤ 9223372036854775807
+    | .int i => -9223372036854775808 ≤ i ∧ i ≤ 18446744073709551615      -- int64 and uint64
     | .flt t => NumAdm t
     | .arr xs => admElems o xs
     | .obj kvs => admMembers o kvs
